@@ -262,6 +262,7 @@ Definition f64_scale := d_scale F64Ops.
 Definition f64_unscale_m := d_unscale F64Ops.
 Definition f64_min_pvalue := @d_min_pvalue F64.t.
 Definition f64_roundtrip := d_roundtrip F64Ops.
+Definition f64_sample := d_sample F64Ops.
 Definition f64_chk_table := chk_table F64Ops.
 Definition f64_chk_mono := chk_mono F64Ops.
 Definition f64_chk_roundtrip := chk_roundtrip F64Ops.
@@ -439,3 +440,23 @@ Definition word_termD (data : list (list Z)) (bg : list Q) (k : Z) (w : list nat
 
 Definition tailD_words (data : list (list Z)) (bg : list Q) (k : Z) : Q :=
   Qsum (map (word_termD data bg k) (all_words (length bg) (length data))).
+
+(* ---------- when does the f32 unscale keep the round trip?  a computable predicate ----------
+   [f64_unscale_exact_on scale offset rows n]: scale(unscale(i)) = i for every index i in 0..n
+   that score() can hand to unscale (n = table length: the binary search returns 0..n).  It
+   depends on (scale, offset, rows, n) only.  [f64_roundtrip_pred d] adds what the table itself
+   must satisfy (non-increasing in [0,1], flat below min_score, min_score >= 0): all of it is
+   evaluated by the driver on the model of the case at hand. *)
+Definition f64_unscale_exact_on (scale offset : F64.t) (rows : Z) (n : nat) : bool :=
+  let d0 := {| d_scale_f := scale; d_offset := offset; d_rows := rows; d_data := [];
+               d_sf := []; d_min := 0%Z; d_max := 0%Z |} in
+  forallb (fun i => f64_index_exact d0 (Z.of_nat i)) (seq 0 (S n)).
+
+Definition f64_flat_below_min (d : dist F64.t) : bool :=
+  forallb (fun i => F64.eq (nth i (d_sf d) F64.zero) (nth 0 (d_sf d) F64.zero)) (seq 0 (Z.to_nat (d_min d))).
+
+Definition f64_roundtrip_pred (d : dist F64.t) : bool :=
+  match f64_chk_table (d_sf d) with O => true | _ => false end &&
+  (0 <=? d_min d)%Z &&
+  f64_flat_below_min d &&
+  f64_unscale_exact_on (d_scale_f d) (d_offset d) (d_rows d) (length (d_sf d)).
